@@ -514,3 +514,34 @@ func underflowGuard(ifi *ssa.If, isLen func(ssa.Value) bool) (k int64, errSucc i
 	}
 	return 0, 0, false
 }
+
+// eachInstrDeep visits the instructions of fn and of the module functions it calls statically
+// (closures included), transitively to the given depth: a rule that asks "does this operation
+// contain …" must not depend on whether a step was extracted into a helper.
+func (c *Ctx) eachInstrDeep(fn *ssa.Function, depth int, visit func(ssa.Instruction)) {
+	seen := map[*ssa.Function]bool{}
+	var walk func(f *ssa.Function, d int)
+	walk = func(f *ssa.Function, d int) {
+		if f == nil || seen[f] || len(f.Blocks) == 0 {
+			return
+		}
+		seen[f] = true
+		eachInstr(f, func(ins ssa.Instruction) {
+			visit(ins)
+			if d <= 0 {
+				return
+			}
+			if call, ok := ins.(ssa.CallInstruction); ok {
+				if g := call.Common().StaticCallee(); g != nil && c.inModule(g) {
+					walk(g, d-1)
+				}
+			}
+			if mc, ok := ins.(*ssa.MakeClosure); ok {
+				if g, ok := mc.Fn.(*ssa.Function); ok {
+					walk(g, d-1)
+				}
+			}
+		})
+	}
+	walk(fn, depth)
+}
